@@ -53,7 +53,7 @@ pub fn run(out: &mut Out, thorough: bool, seed: u64, _extra: &[String]) {
         }
         // sums and differences of every ordered pair of sizes 2..4 (first level and one level down): at most 2 bits below the smaller operand budget
         if thorough || pi < 8 {
-            for (name, a, b, res, _want) in size_pair_cases(&s, &mut r) {
+            for (name, a, b, res, _want, _pred) in size_pair_cases(&s, &mut r) {
                 let (ba, bb, br) = (budget(&s, &a), budget(&s, &b), budget(&s, &res));
                 let v = coef_view(&s, &res);
                 out.case(&format!("budget {}", s.ct_case(&v)), &format!("pairs-{}", name), || br.to_string());
